@@ -1980,3 +1980,284 @@ Section L007Text.
     - apply (l007_line_idem is_letter is_digit upper_ascii keywords up_letter up_idem).
   Qed.
 End L007Text.
+
+(* ------------------------------------------------------------------------------------------------ *)
+(* exact flagging and locations *)
+
+Lemma on_clines_in : forall f ls k v, In v (on_clines f k ls) <->
+  exists i l, nth_error ls i = Some l /\ In v (f (k + i)%nat l).
+Proof.
+  intros f. induction ls as [|l r IH]; intros k v.
+  - cbn. split; [intros []|]. intros (i & l & H & _). destruct i; discriminate.
+  - cbn [on_clines]. rewrite in_app_iff. rewrite IH. split.
+    + intros [H|(i & l' & H1 & H2)].
+      * exists 0%nat, l. split; [reflexivity|]. rewrite Nat.add_0_r. exact H.
+      * exists (S i), l'. split; [exact H1|]. replace (k + S i)%nat with (S k + i)%nat by lia. exact H2.
+    + intros (i & l' & H1 & H2). destruct i as [|i].
+      * cbn in H1. inversion H1; subst. left. rewrite Nat.add_0_r in H2. exact H2.
+      * right. exists i, l'. split; [exact H1|]. replace (S k + i)%nat with (k + S i)%nat by lia. exact H2.
+Qed.
+
+(* L002 *)
+Lemma ikind_cases : forall l, ikind l = 0 \/ ikind l = 1 \/ ikind l = 2 \/ ikind l = 3.
+Proof.
+  intro l. unfold ikind. destruct (take_l lblank l); [auto|].
+  destruct (existsb (fun p : ch * N => is_tab (fst p)) (c :: l0) && existsb (fun p : ch * N => is_sp (fst p)) (c :: l0)); [auto|]. destruct (existsb (fun p : ch * N => is_tab (fst p)) (c :: l0)); auto.
+Qed.
+
+Lemma eff_cons_skip : forall first l pre, (ikind (snd l) = 0 \/ ikind (snd l) = 3) -> eff first (l :: pre) = eff first pre.
+Proof. intros first l pre H. unfold eff. cbn [map first_pure]. destruct H as [H|H]; rewrite H; reflexivity. Qed.
+
+Lemma eff_cons_pure : forall first l pre, (ikind (snd l) = 1 \/ ikind (snd l) = 2) ->
+  eff first (l :: pre) = if first =? 0 then ikind (snd l) else first.
+Proof. intros first l pre H. unfold eff. cbn [map first_pure]. destruct H as [H|H]; rewrite H; reflexivity. Qed.
+
+Lemma eff_nz : forall first pre, first <> 0 -> eff first pre = first.
+Proof. intros first pre H. unfold eff. apply N.eqb_neq in H. rewrite H. reflexivity. Qed.
+
+Lemma l002_step : forall first l, exists first' (fl : bool),
+  (forall k r, l002_check_lines first k (l :: r) = (if fl then [(k, 1%nat)] else []) ++ l002_check_lines first' (S k) r) /\
+  (fl = true <-> l002_defect first [] (snd l)) /\
+  (forall pre, eff first' pre = eff first (l :: pre)).
+Proof.
+  intros first l. unfold l002_defect. pose proof (ikind_cases (snd l)) as K. unfold ikind in *.
+  destruct (take_l lblank (snd l)) as [|c lw] eqn:El.
+  - exists first, false. split; [intros k r; cbn [l002_check_lines]; unfold leading_ws; rewrite El; reflexivity|]. split.
+    + split; [discriminate|]. intros [H|([H|H] & _)]; discriminate.
+    + intro pre. symmetry. apply eff_cons_skip. left. unfold ikind. rewrite El. reflexivity.
+  - set (ht := existsb (fun p : ch * N => is_tab (fst p)) (c :: lw)) in *. set (hs := existsb (fun p : ch * N => is_sp (fst p)) (c :: lw)) in *.
+    destruct (ht && hs) eqn:Em.
+    + exists first, true. split; [intros k r; cbn [l002_check_lines]; unfold leading_ws; rewrite El; fold ht hs; rewrite Em; reflexivity|]. split.
+      * split; [intros _; left; reflexivity|reflexivity].
+      * intro pre. symmetry. apply eff_cons_skip. right. unfold ikind. rewrite El. fold ht hs. rewrite Em. reflexivity.
+    + set (cur := if ht then 1 else 2).
+      assert (Kc : (if ht then 1 else 2) = cur) by reflexivity.
+      assert (Ec : forall pre, eff first (l :: pre) = if first =? 0 then cur else first).
+      { intro pre. rewrite eff_cons_pure; [unfold ikind; rewrite El; fold ht hs; rewrite Em; reflexivity|].
+        unfold ikind. rewrite El. fold ht hs. rewrite Em. destruct ht; auto. }
+      assert (Cnz : cur <> 0) by (unfold cur; destruct ht; discriminate).
+      assert (Cpure : cur = 1 \/ cur = 2) by (unfold cur; destruct ht; auto).
+      destruct (first =? 0) eqn:E0.
+      * exists cur, false. split; [intros k r; cbn [l002_check_lines]; unfold leading_ws; rewrite El; fold ht hs; rewrite Em; fold cur; rewrite E0; reflexivity|]. split.
+        -- split; [discriminate|]. intros [H|(_ & H & _)]; [try rewrite Kc in H; destruct Cpure as [C|C]; rewrite C in H; discriminate|].
+           exfalso. apply H. unfold eff. rewrite E0. reflexivity.
+        -- intro pre. rewrite Ec. apply eff_nz. exact Cnz.
+      * apply N.eqb_neq in E0. destruct (first =? cur) eqn:E1.
+        -- exists first, false. split; [intros k r; cbn [l002_check_lines]; unfold leading_ws; rewrite El; fold ht hs; rewrite Em; fold cur;
+             replace (first =? 0) with false by (symmetry; apply N.eqb_neq; exact E0); rewrite E1; reflexivity|]. split.
+           ++ split; [discriminate|]. intros [H|(_ & _ & H)]; [try rewrite Kc in H; destruct Cpure as [C|C]; rewrite C in H; discriminate|].
+              exfalso. apply H. rewrite eff_nz by exact E0. try rewrite Kc. apply N.eqb_eq. exact E1.
+           ++ intro pre. rewrite Ec. rewrite !eff_nz by exact E0. replace (first =? 0) with false by (symmetry; apply N.eqb_neq; exact E0). reflexivity.
+        -- exists first, true. split; [intros k r; cbn [l002_check_lines]; unfold leading_ws; rewrite El; fold ht hs; rewrite Em; fold cur;
+             replace (first =? 0) with false by (symmetry; apply N.eqb_neq; exact E0); rewrite E1; reflexivity|]. split.
+           ++ split; [intros _|reflexivity]. right. try rewrite Kc. split; [exact Cpure|]. rewrite eff_nz by exact E0. split; [exact E0|].
+              apply N.eqb_neq. exact E1.
+           ++ intro pre. rewrite Ec. rewrite !eff_nz by exact E0. replace (first =? 0) with false by (symmetry; apply N.eqb_neq; exact E0). reflexivity.
+Qed.
+
+Lemma l002_defect_shift : forall first first' l0 pre l, (forall p, eff first' p = eff first (l0 :: p)) ->
+  (l002_defect first' pre l <-> l002_defect first (l0 :: pre) l).
+Proof. intros first first' l0 pre l H. unfold l002_defect. rewrite H. tauto. Qed.
+
+Lemma l002_lines_exact : forall ls first k n col,
+  In (n, col) (l002_check_lines first k ls) <->
+  col = 1%nat /\ exists i l, nth_error ls i = Some l /\ n = (k + i)%nat /\ l002_defect first (firstn i ls) (snd l).
+Proof.
+  induction ls as [|l0 r IH]; intros first k n col.
+  - cbn. split; [intros []|]. intros (_ & i & l & H & _). destruct i; discriminate.
+  - destruct (l002_step first l0) as (first' & fl & Hs & Hf & He). rewrite Hs. rewrite in_app_iff. rewrite IH. split.
+    + intros [H|(Hc & i & l & Hn & En & Hd)].
+      * destruct fl; [|destruct H]. destruct H as [H|[]]. inversion H; subst. split; [reflexivity|].
+        exists 0%nat, l0. split; [reflexivity|]. split; [lia|]. cbn [firstn]. apply Hf. reflexivity.
+      * split; [exact Hc|]. exists (S i), l. split; [exact Hn|]. split; [lia|]. cbn [firstn].
+        apply (l002_defect_shift first first' l0 _ (snd l) He). exact Hd.
+    + intros (Hc & i & l & Hn & En & Hd). destruct i as [|i].
+      * cbn in Hn. inversion Hn; subst. cbn [firstn] in Hd. apply Hf in Hd. subst fl. left. left. f_equal. lia.
+      * right. split; [exact Hc|]. exists i, l. split; [exact Hn|]. split; [lia|]. cbn [firstn] in Hd.
+        apply (l002_defect_shift first first' l0 _ (snd l) He). exact Hd.
+Qed.
+
+Theorem l002_check_exact : forall t n col,
+  In (n, col) (l002_check t) <->
+  col = 1%nat /\ (1 <= n)%nat /\ exists fl, nth_error (clines t) (n - 1) = Some fl /\ l002_defect 0 (firstn (n - 1) (clines t)) (snd fl).
+Proof.
+  intros t n col. unfold l002_check. rewrite l002_lines_exact. split.
+  - intros (Hc & i & l & Hn & En & Hd). subst n. replace (1 + i - 1)%nat with i by lia. split; [exact Hc|]. split; [lia|]. exists l. split; assumption.
+  - intros (Hc & H1 & l & Hn & Hd). split; [exact Hc|]. exists (n - 1)%nat, l. split; [exact Hn|]. split; [lia|exact Hd].
+Qed.
+
+Section L003Exact.
+  Variable is_space : N -> bool.
+  Notation blank := (cblank is_space).
+
+  Notation run_from := (run_from is_space).
+  Notation startsG := (startsG is_space).
+
+  Lemma run_cons_blank : forall l r, blank l = true -> run_from (l :: r) 0 = S (run_from r 0).
+  Proof. intros l r H. unfold Lint.run_from. cbn [skipn take_l]. rewrite H. reflexivity. Qed.
+  Lemma run_cons_nb : forall l r, blank l = false -> run_from (l :: r) 0 = 0%nat.
+  Proof. intros l r H. unfold Lint.run_from. cbn [skipn take_l]. rewrite H. reflexivity. Qed.
+  Lemma run_S : forall l r i, run_from (l :: r) (S i) = run_from r i.
+  Proof. reflexivity. Qed.
+  Lemma run_nil : forall i, run_from [] i = 0%nat.
+  Proof. intros [|i]; reflexivity. Qed.
+
+  Lemma startsG_shift : forall cnt c' l r i, startsG c' r (S i) <-> startsG cnt (l :: r) (S (S i)).
+  Proof. intros. unfold Lint.startsG. cbn [nth_error]. tauto. Qed.
+
+  Lemma l003_lines_exact : forall mx ls cnt start k n col,
+    In (n, col) (l003_check_lines is_space mx cnt start k ls) <->
+    col = 1%nat /\ ((0 < cnt /\ n = start /\ mx < cnt + run_from ls 0)%nat \/
+                    (exists i, n = (k + i)%nat /\ startsG cnt ls i /\ (mx < run_from ls i)%nat)).
+  Proof.
+    intros mx. induction ls as [|l r IH]; intros cnt start k n col.
+    - cbn [l003_check_lines]. rewrite run_nil. split.
+      + destruct (mx <? cnt)%nat eqn:E; [|intros []]. intros [H|[]]. inversion H; subst. apply Nat.ltb_lt in E.
+        split; [reflexivity|]. left. lia.
+      + intros (Hc & [(H1 & H2 & H3)|(i & _ & ((l & Hl & _) & _) & _)]); [|destruct i; discriminate].
+        replace (mx <? cnt)%nat with true by (symmetry; apply Nat.ltb_lt; lia). left. subst. reflexivity.
+    - cbn [l003_check_lines]. destruct (blank l) eqn:Eb.
+      + rewrite IH. rewrite (run_cons_blank l r Eb).
+        split; intros (Hc & H); (split; [exact Hc|]).
+        * destruct H as [(H1 & H2 & H3)|(i & H1 & H2 & H3)].
+          -- destruct (cnt =? 0)%nat eqn:Ec.
+             ++ apply Nat.eqb_eq in Ec. subst cnt. right. exists 0%nat. split; [lia|]. split.
+                ** split; [exists l; split; [reflexivity|exact Eb]|reflexivity].
+                ** rewrite (run_cons_blank l r Eb). lia.
+             ++ apply Nat.eqb_neq in Ec. left. lia.
+          -- right. exists (S i). split; [lia|]. split.
+             ++ destruct i as [|j]; [destruct H2 as (_ & H2); discriminate|]. apply (startsG_shift cnt (S cnt) l r j). exact H2.
+             ++ rewrite run_S. exact H3.
+        * destruct H as [(H1 & H2 & H3)|(i & H1 & H2 & H3)].
+          -- left. destruct (cnt =? 0)%nat eqn:Ec; [apply Nat.eqb_eq in Ec; lia|]. lia.
+          -- destruct i as [|[|j]].
+             ++ destruct H2 as (_ & H2). subst cnt. left. cbn [Nat.eqb]. rewrite (run_cons_blank l r Eb) in H3. lia.
+             ++ destruct H2 as (_ & (p & Hp & Hb)). cbn in Hp. inversion Hp; subst. congruence.
+             ++ right. exists (S j). split; [lia|]. split; [apply (startsG_shift cnt (S cnt) l r j); exact H2|].
+                rewrite run_S in H3. exact H3.
+      + rewrite in_app_iff. rewrite IH. rewrite (run_cons_nb l r Eb).
+        split.
+        * intros [H|(Hc & H)].
+          -- destruct (mx <? cnt)%nat eqn:E; [|destruct H]. destruct H as [H|[]]. inversion H; subst. apply Nat.ltb_lt in E.
+             split; [reflexivity|]. left. lia.
+          -- split; [exact Hc|]. destruct H as [(H1 & _)|(i & H1 & H2 & H3)]; [lia|]. right. exists (S i). split; [lia|]. split.
+             ++ destruct i as [|j].
+                ** destruct H2 as (H2 & _). split; [exact H2|]. exists l. split; [reflexivity|exact Eb].
+                ** apply (startsG_shift cnt 0%nat l r j). exact H2.
+             ++ rewrite run_S. exact H3.
+        * intros (Hc & [(H1 & H2 & H3)|(i & H1 & H2 & H3)]).
+          -- left. replace (mx <? cnt)%nat with true by (symmetry; apply Nat.ltb_lt; lia). left. subst. reflexivity.
+          -- right. split; [exact Hc|]. right. destruct i as [|[|j]].
+             ++ destruct H2 as ((l' & Hl & Hb) & _). cbn in Hl. inversion Hl; subst. congruence.
+             ++ exists 0%nat. split; [lia|]. split; [destruct H2 as (H2 & _); split; [exact H2|reflexivity]|].
+                rewrite run_S in H3. exact H3.
+             ++ exists (S j). split; [lia|]. split; [apply (startsG_shift cnt 0%nat l r j); exact H2|].
+                rewrite run_S in H3. exact H3.
+  Qed.
+
+  (* the defect L003 names: line n starts a run of more than mx consecutive blank lines *)
+  Theorem l003_check_exact : forall mx t n col,
+    In (n, col) (l003_check_mx is_space mx t) <->
+    col = 1%nat /\ (1 <= n)%nat /\ startsG 0 (clines t) (n - 1) /\ (mx < run_from (clines t) (n - 1))%nat.
+  Proof.
+    intros mx t n col. unfold l003_check_mx. rewrite l003_lines_exact. split.
+    - intros (Hc & [(H1 & _)|(i & H1 & H2 & H3)]); [lia|]. subst n. replace (1 + i - 1)%nat with i by lia. repeat split; try assumption; try lia; apply H2.
+    - intros (Hc & H1 & H2 & H3). split; [exact Hc|]. right. exists (n - 1)%nat. split; [lia|]. split; assumption.
+  Qed.
+End L003Exact.
+
+(* ---------------- L001: exact flagging, location ---------------- *)
+Lemma trim_r_len_lt : forall {A} (p : A -> bool) l,
+  (length (trim_r p l) < length l)%nat <-> exists c, lastc l = Some c /\ p c = true.
+Proof.
+  intros A p. induction l as [|c t IH].
+  - cbn. split; [lia|]. intros (c & H & _). discriminate.
+  - rewrite trim_r_cons. destruct t as [|d t].
+    + cbn [trim_r lastc]. destruct (p c) eqn:E; cbn [length]; split; try lia.
+      * intros _. exists c. split; [reflexivity|exact E].
+      * intros (x & Hx & Hp). injection Hx as Hx. subst. congruence.
+    + rewrite lastc_cons by discriminate. rewrite <- IH.
+      destruct (trim_r p (d :: t)) as [|a r] eqn:Et.
+      * destruct (p c); cbn [length]; split; lia.
+      * cbn [length]. split; lia.
+Qed.
+
+Lemma trim_r_len_le : forall {A} (p : A -> bool) l, (length (trim_r p l) <= length l)%nat.
+Proof.
+  intros A p. induction l as [|c t IH]; [cbn; lia|]. rewrite trim_r_cons. destruct (trim_r p t); [destruct (p c)|]; cbn [length] in *; lia.
+Qed.
+
+Theorem l001_check_exact : forall t n col,
+  In (n, col) (l001_check t) <->
+  exists fl, nth_error (clines t) (n - 1) = Some fl /\ (1 <= n)%nat /\ ends_tblank (snd fl) /\
+             col = S (blen (chars (trim_r tblank (snd fl)))).
+Proof.
+  intros t n col. unfold l001_check. rewrite on_clines_in. split.
+  - intros (i & fl & Hn & Hin). unfold l001_check_line, l001_line in Hin.
+    destruct (length (trim_r tblank (snd fl)) <? length (snd fl))%nat eqn:F; [|destruct Hin].
+    destruct Hin as [Hin|[]]. injection Hin as E1 E2; subst n col. exists fl. replace (S i - 1)%nat with i by lia.
+    split; [exact Hn|]. split; [lia|]. split; [|reflexivity]. apply Nat.ltb_lt in F. apply trim_r_len_lt in F. exact F.
+  - intros (fl & Hn & H1 & He & Hc). exists (n - 1)%nat, fl. split; [exact Hn|].
+    unfold l001_check_line, l001_line. apply trim_r_len_lt in He. apply Nat.ltb_lt in He. rewrite He.
+    left. subst col. replace (1 + (n - 1))%nat with n by lia. reflexivity.
+Qed.
+
+
+Lemma blen_chars_trim_r_le : forall (p : cc -> bool) l, (blen (chars (trim_r p l)) <= blen (chars l))%nat.
+Proof.
+  intros p. induction l as [|c t IH]; [cbn; lia|]. rewrite trim_r_cons. destruct (trim_r p t) as [|a r] eqn:E.
+  - destruct (p c); unfold blen, chars; cbn [map fold_right]; lia.
+  - unfold blen, chars in *; cbn [map fold_right] in *. lia.
+Qed.
+
+(* the reported column is a byte offset inside the flagged line when the text is well formed (no empty character) *)
+Theorem l001_location : forall t n col, In (n, col) (l001_check t) ->
+  exists fl, nth_error (clines t) (n - 1) = Some fl /\ (1 <= n <= length (clines t))%nat /\
+             (1 <= col <= S (blen (chars (snd fl))))%nat.
+Proof.
+  intros t n col H. apply l001_check_exact in H. destruct H as (fl & Hn & H1 & He & Hc).
+  exists fl. split; [exact Hn|]. split.
+  - split; [exact H1|]. assert (n - 1 < length (clines t))%nat by (apply nth_error_Some; congruence). lia.
+  - subst. pose proof (blen_chars_trim_r_le tblank (snd fl)). lia.
+Qed.
+
+(* ---------------- L002, L003: locations ---------------- *)
+Theorem l002_location : forall t n col, In (n, col) (l002_check t) ->
+  (1 <= n <= length (clines t))%nat /\ col = 1%nat /\
+  exists fl, nth_error (clines t) (n - 1) = Some fl /\ take_l lblank (snd fl) <> [].
+Proof.
+  intros t n col H. apply l002_check_exact in H. destruct H as (Hc & H1 & fl & Hn & Hd).
+  split; [|split; [exact Hc|]].
+  - split; [exact H1|]. assert (n - 1 < length (clines t))%nat by (apply nth_error_Some; congruence). lia.
+  - exists fl. split; [exact Hn|]. intro E. unfold l002_defect, ikind in Hd. rewrite E in Hd.
+    destruct Hd as [Hd|[[Hd|Hd] _]]; discriminate.
+Qed.
+
+Section L003Loc.
+  Variable is_space : N -> bool.
+  Theorem l003_location : forall mx t n col, In (n, col) (l003_check_mx is_space mx t) ->
+    (1 <= n <= length (clines t))%nat /\ col = 1%nat.
+  Proof.
+    intros mx t n col H. apply l003_check_exact in H. destruct H as (Hc & H1 & ((l & Hn & _) & _) & _).
+    split; [|exact Hc]. split; [exact H1|]. assert (n - 1 < length (clines t))%nat by (apply nth_error_Some; congruence). lia.
+  Qed.
+End L003Loc.
+
+(* ---------------- L005: exact flagging ---------------- *)
+Theorem l005_check_exact : forall is_space mx t n col,
+  In (n, col) (l005_check is_space mx t) <->
+  exists fl, nth_error (clines t) (n - 1) = Some fl /\ (1 <= n)%nat /\ chars (snd fl) <> [] /\
+            (starts2 45 45 (trim_space is_space (chars (snd fl))) || starts2 47 42 (trim_space is_space (chars (snd fl)))) = false /\
+            (mx < blen (chars (snd fl)))%nat /\ col = S mx.
+Proof.
+  intros is_space mx t n col. unfold l005_check. rewrite on_clines_in. split.
+  - intros (i & fl & Hn & Hin). unfold l005_check_line in Hin. cbv zeta in Hin. destruct (chars (snd fl)) as [|c l] eqn:El; [destruct Hin|].
+    destruct (starts2 45 45 (trim_space is_space (c :: l)) || starts2 47 42 (trim_space is_space (c :: l))) eqn:Ec; [destruct Hin|].
+    destruct (mx <? blen (c :: l))%nat eqn:Eb; [|destruct Hin]. destruct Hin as [Hin|[]]. assert (E1 : (n - 1 = i)%nat /\ (1 <= n)%nat /\ col = S mx) by (inversion Hin; subst; repeat split; lia).
+    destruct E1 as (E1 & E2 & E3). exists fl. rewrite E1, El. split; [exact Hn|]. split; [exact E2|]. split; [discriminate|].
+    split; [exact Ec|]. split; [apply Nat.ltb_lt; exact Eb|exact E3].
+  - intros (fl & Hn & H1 & Hne & Hc & Hl & E). exists (n - 1)%nat, fl. split; [exact Hn|].
+    unfold l005_check_line. cbv zeta. destruct (chars (snd fl)) as [|c l] eqn:El; [contradiction|]. rewrite Hc.
+    replace (mx <? blen (c :: l))%nat with true by (symmetry; apply Nat.ltb_lt; exact Hl).
+    left. subst col. replace (1 + (n - 1))%nat with n by lia. reflexivity.
+Qed.
